@@ -45,8 +45,22 @@ def point(rng, names, dim, role="vec"):
     return H.from_cart(names, x, y, z, t)
 
 
+SPELLINGS = {"x": ("px",), "y": ("py",), "rho": ("pt",), "z": ("pz",), "t": ("E", "e", "energy"), "tau": ("mass", "M", "m")}
+_spell = [0]
+
+
+def momentum_names(names):
+    """momentum spellings of the coordinate names; the spelling of t (E / e / energy) and tau (mass / M / m) rotates with
+    next_spelling() (called once per array built, never inside one) so that every documented spelling reaches every constructor"""
+    return [SPELLINGS[k][_spell[0] % len(SPELLINGS[k])] if k in SPELLINGS else k for k in names]
+
+
+def next_spelling():
+    _spell[0] += 1
+
+
 def rec(names, p, mom, extras=None):
-    d = {(H.MOM.get(k, k) if mom else k): p[k] for k in names}
+    d = dict(zip(momentum_names(names) if mom else names, [p[k] for k in names]))
     if extras:
         d.update(extras)
     return d
@@ -163,6 +177,47 @@ def snapshot(v):
 
 
 # ---------------------------------------------------------------- C03 / C16 runner
+def spelling_lattice(ctx, seed):
+    """every documented spelling of every coordinate (x|px, y|py, rho|pt, z|pz, t|E|e|energy, tau|M|m|mass) through every
+    array constructor: the values read back equal those of vector.obj built with the same keywords"""
+    import awkward as ak
+    import vector
+    AZN = [("x", "y"), ("x", "py"), ("px", "y"), ("px", "py"), ("rho", "phi"), ("pt", "phi")]
+    LGN = [(), ("z",), ("pz",), ("theta",), ("eta",)]
+    TMN = [(), ("t",), ("E",), ("e",), ("energy",), ("tau",), ("M",), ("m",), ("mass",)]
+    rng = H.rng_for(seed, "spellings")
+    k = 0
+    for a in AZN:
+        for l_ in LGN:
+            for t_ in TMN:
+                if t_ and not l_:
+                    continue
+                names = a + l_ + t_
+                vals = [[round(rng.uniform(0.3, 2.5), 3) + (10.0 if nm in ("t", "E", "e", "energy") else 0.0) for nm in names] for _ in range(2)]
+                try:
+                    o = [vector.obj(**dict(zip(names, v))) for v in vals]
+                except Exception as e:
+                    ctx.fail(f"spelling:obj:{','.join(names)}", f"vector.obj raises {type(e).__name__}: {e}"[:200], {"names": list(names)})
+                    continue
+                gets = ["x", "y"] + (["z"] if l_ else []) + (["t", "tau"] if t_ else [])
+                cols = {nm: numpy.array([v[i] for v in vals]) for i, nm in enumerate(names)}
+                builders = {"vector.array": lambda: vector.array(cols), "vector.zip": lambda: vector.zip({nm: ak.Array(c) for nm, c in cols.items()}),
+                            "vector.Array": lambda: vector.Array(ak.Array([dict(zip(names, v)) for v in vals]))}
+                for bn, b in builders.items():
+                    k += 1
+                    try:
+                        arr = b()
+                        for g in gets:
+                            got = [float(q) for q in (numpy.asarray(getattr(arr, g)) if bn == "vector.array" else ak.to_list(getattr(arr, g)))]
+                            want = [float(getattr(x, g)) for x in o]
+                            if not all(close(p_, q_) for p_, q_ in zip(got, want)):
+                                ctx.fail(f"spelling:{bn}:{','.join(names)}:{g}", f"{bn} with fields {names}: .{g} = {got}, vector.obj with the same keywords gives {want}", {"names": list(names), "values": vals})
+                                break
+                    except Exception as e:
+                        ctx.fail(f"spelling:{bn}:{','.join(names)}", f"raises {type(e).__name__}: {e}"[:200], {"names": list(names), "values": vals})
+    return k
+
+
 def run_agreement(ctx, seed, deep, values=True, snapshots=True, prop="C03"):
     """every catalogued operation on NumPy arrays (1-D, 2-D), Awkward arrays (flat, jagged) and mixed pairings:
     values equal the object backend element by element (values=True); no operand is modified (snapshots=True)"""
@@ -172,18 +227,23 @@ def run_agreement(ctx, seed, deep, values=True, snapshots=True, prop="C03"):
     distinct = set()
     samples = []
     with numpy.errstate(all="ignore"):
+        if values:
+            n += spelling_lattice(ctx, seed)
         for dim in (2, 3, 4):
+            visited = -1
             for si, names in enumerate(H.SYS[dim]):
-                if not deep and (si + seed) % 2 != 0 and dim == 4:
-                    continue
+                if not deep and dim == 4 and (si + si // 2 + seed) % 2 != 0:
+                    continue              # quick: half of the 4D systems, alternating t- and tau-stored ones
+                visited += 1
                 for mom in (False, True):
-                    if not deep and mom and si % 2:
-                        continue
+                    if not deep and mom and (visited + visited // 2 + seed // 2) % 2:
+                        continue          # quick: momentum flavor on half of the visited systems (t- and tau-stored alike)
                     sysn = H.sysname(names)
+                    next_spelling()
                     rng = H.rng_for(seed, prop, names, mom)
                     pts = [point(rng, names, dim) for _ in range(4)]
                     objs = [H.obj(vector, names, p, momentum=mom) for p in pts]
-                    keyn = [H.MOM.get(k, k) if mom else k for k in names]
+                    keyn = momentum_names(names) if mom else list(names)
 
                     def mk_np(shape=None):
                         a = vector.array({kn: numpy.array([p[nm] for p in pts]) for nm, kn in zip(names, keyn)})
@@ -303,7 +363,7 @@ def run_agreement(ctx, seed, deep, values=True, snapshots=True, prop="C03"):
                                 distinct.add((nm, k1, k2, sysn, mom))
 
                                 def build(kind, names_, pts_, mom_):
-                                    keys = [H.MOM.get(k, k) if mom_ else k for k in names_]
+                                    keys = momentum_names(names_) if mom_ else list(names_)
                                     if kind == "object":
                                         return H.obj(vector, names_, pts_[0], momentum=mom_), [0, 0, 0, 0]
                                     if kind == "record":
